@@ -162,14 +162,43 @@ Definition good (s s' : st) : Prop := hinv (heap s') /\ ext (heap s) (heap s').
 Lemma good_trans s1 s2 s3 : good s1 s2 -> (hinv (heap s2) -> good s2 s3) -> good s1 s3.
 Proof. intros [A B] H. destruct (H A) as [C D]. split; [exact C | eapply ext_trans; eassumption]. Qed.
 
+Lemma add_framer_good s ho : hinv (heap s) -> good s (fst (add_framer s ho)).
+Proof. intros Hi. unfold add_framer. cbn. exact (alloc_good s Hi). Qed.
+
+Lemma clone_frames_good nms_ : forall s, hinv (heap s) -> good s (clone_frames s nms_).
+Proof.
+  unfold clone_frames. induction nms_ as [|nm l IH]; cbn [fold_left]; intros s Hi.
+  - split; [exact Hi | apply ext_refl].
+  - eapply good_trans; [exact (reg_good s CFrame (NStr nm) [] [] Hi)|]. intros H1. apply IH. exact H1.
+Qed.
+
+Lemma assign_heap s abc : heap (assign s abc) = heap s.
+Proof. destruct abc as [[a b] c]. reflexivity. Qed.
+
 Lemma step_good s x : hinv (heap s) -> good s (fst (step s x)).
 Proof.
-  intros Hi. destruct x as [c nk pre orc|nk pre orc|h|f|c|]; cbn [step].
+  intros Hi. destruct x as [c nk pre orc|h nk pre orc|f n orc|nk pre orc|h|f|c|]; cbn [step].
   - pose proof (reg_good s c nk pre orc Hi) as G. destruct (reg s c nk pre orc) as [s1 r]. cbn [fst] in G.
-    destruct r; try exact G. destruct c; try exact G. cbn [alloc fst].
-    eapply good_trans; [exact G|]. intros H1. exact (alloc_good s1 H1).
+    destruct r; try exact G. destruct c; try exact G.
+    eapply good_trans; [exact G|]. intros H1. exact (add_framer_good s1 None H1).
+  - pose proof (reg_good s CFramer nk pre orc Hi) as G. destruct (reg s CFramer nk pre orc) as [s1 r]. cbn [fst] in G.
+    destruct r; try exact G. eapply good_trans; [exact G|]. intros H1. apply add_framer_good. exact H1.
+  - destruct (nth_error (framers s) f) as [fd|]; [|split; [exact Hi | apply ext_refl]].
+    destruct (nth_error (fhouse s) f) as [[h|]|]; try (split; [exact Hi | apply ext_refl]).
+    destruct (nth_error (houses s) h) as [abc|]; [|split; [exact Hi | apply ext_refl]].
+    assert (G1 : good s (assign s abc)) by (unfold good; rewrite assign_heap; split; [exact Hi | apply ext_refl]).
+    destruct (_ && _); [exact G1|].
+    set (nk := match n with [] => NAuto | _ => NStr n end).
+    pose proof (fun H => reg_good (assign s abc) CFramer nk [] orc H) as G2.
+    destruct (reg (assign s abc) CFramer nk [] orc) as [s2 r]. cbn [fst] in G2.
+    assert (G3 : good s s2) by (eapply good_trans; [exact G1 | exact G2]).
+    destruct r; try exact G3.
+    pose proof (fun H => add_framer_good s2 (Some h) H) as G4.
+    destruct (add_framer s2 (Some h)) as [s3 d]. cbn [fst] in *.
+    eapply good_trans; [exact G3|]. intros H2. eapply good_trans; [exact (G4 H2)|]. intros H3.
+    exact (clone_frames_good _ (set_attr s3 CFrame {| cnt := Some 0; nms := Some d |}) H3).
   - pose proof (reg_good s CHouse nk pre orc Hi) as G. destruct (reg s CHouse nk pre orc) as [s1 r]. cbn [fst] in G.
-    destruct r as [nm| |]; try exact G. cbn [alloc].
+    destruct r as [nm| | |]; try exact G. cbn [alloc].
     set (s2 := set_heap s1 (heap s1 ++ [[]])). set (s3 := set_heap s2 (heap s2 ++ [[]])).
     set (s4 := set_heap s3 (heap s3 ++ [[]])).
     assert (G4 : good s s4).
@@ -179,7 +208,8 @@ Proof.
     destruct (reg s4 CStore (NStr nm) [] []) as [s5 r2]. cbn [fst] in G5.
     assert (G6 : good s s5) by (eapply good_trans; [exact G4 | exact G5]).
     destruct r2; exact G6.
-  - destruct (nth_error (houses s) h) as [[[a b] c]|]; cbn; split; try exact Hi; apply ext_refl.
+  - destruct (nth_error (houses s) h) as [abc|]; cbn [fst]; unfold good; rewrite ?assign_heap;
+      split; try exact Hi; apply ext_refl.
   - destruct (nth_error (framers s) f); cbn; split; try exact Hi; apply ext_refl.
   - cbn [fst]. exact (clear_good s c Hi).
   - cbn [fst]. eapply good_trans; [exact (clear_good s CStore Hi)|]. intros H1.
@@ -198,23 +228,82 @@ Proof. repeat constructor. Qed.
 (* no step ever reports an exhausted suffix loop *)
 Lemma step_no_fuel s x : snd (step s x) <> Some OutOfFuel.
 Proof.
-  destruct x as [c nk pre orc|nk pre orc|h|f|c|]; cbn [step]; try discriminate.
+  destruct x as [c nk pre orc|h nk pre orc|f n orc|nk pre orc|h|f|c|]; cbn [step]; try discriminate.
   - pose proof (reg_spec s c nk pre orc) as [H _]. destruct (reg s c nk pre orc) as [s1 r]. cbn in H.
     destruct r; try (cbn; congruence). destruct c; cbn; discriminate.
+  - pose proof (reg_spec s CFramer nk pre orc) as [H _]. destruct (reg s CFramer nk pre orc) as [s1 r]. cbn in H.
+    destruct r; cbn; congruence.
+  - destruct (nth_error (framers s) f) as [fd|]; [|discriminate].
+    destruct (nth_error (fhouse s) f) as [[h|]|]; try discriminate.
+    destruct (nth_error (houses s) h) as [abc|]; [|discriminate].
+    destruct (_ && _); [discriminate|].
+    match goal with |- context [reg ?s1 CFramer ?a ?b ?c] =>
+      pose proof (reg_spec s1 CFramer a b c) as [H _]; destruct (reg s1 CFramer a b c) as [s2 r] end.
+    cbn in H. destruct r; try (cbn; congruence); try (destruct (add_framer s2 (Some h)); cbn; discriminate).
   - pose proof (reg_spec s CHouse nk pre orc) as [H _]. destruct (reg s CHouse nk pre orc) as [s1 r]. cbn in H.
-    destruct r as [nm| |]; try (cbn; congruence). cbn [alloc].
+    destruct r as [nm| | |]; try (cbn; congruence). cbn [alloc].
     match goal with |- context [reg ?s4 CStore ?a ?b ?c] =>
       pose proof (reg_spec s4 CStore a b c) as [H2 _]; destruct (reg s4 CStore a b c) as [s5 r2] end.
     cbn in H2. destruct r2; cbn; congruence.
-  - destruct (nth_error (houses s) h) as [[[a b] c]|]; discriminate.
+  - destruct (nth_error (houses s) h) as [abc|]; discriminate.
   - destruct (nth_error (framers s) f); discriminate.
 Qed.
 
 (* after houses[h].assignRegistries() the store / tasker (framer, logger) / log namespaces are house h's *)
+Lemma assign_eff s a b c :
+  eff_nms (assign s (a, b, c)) CStore = a /\ eff_nms (assign s (a, b, c)) CTasker = b /\
+  eff_nms (assign s (a, b, c)) CLog = c /\
+  (nms (attrs s CFramer) = None -> eff_nms (assign s (a, b, c)) CFramer = b) /\
+  (nms (attrs s CLogger) = None -> eff_nms (assign s (a, b, c)) CLogger = b).
+Proof. repeat split; intros E; unfold eff_nms; cbn; rewrite E; reflexivity. Qed.
+
 Lemma assign_points_to_house s h a b c : nth_error (houses s) h = Some (a, b, c) ->
   let s' := fst (step s (Assign h)) in
   eff_nms s' CStore = a /\ eff_nms s' CTasker = b /\ eff_nms s' CLog = c /\
   (nms (attrs s CFramer) = None -> eff_nms s' CFramer = b) /\ (nms (attrs s CLogger) = None -> eff_nms s' CLogger = b).
+Proof. intros H. cbn [step]. rewrite H. cbn [fst]. apply assign_eff. Qed.
+
+Lemma reg_ext s c nk pre orc : ext (heap s) (heap (fst (reg s c nk pre orc))).
 Proof.
-  intros H. cbn [step]. rewrite H. cbn. repeat split; intros E; unfold eff_nms; cbn; rewrite E; reflexivity.
+  destruct (reg_spec s c nk pre orc) as [_ [[H _]|(nm & _ & Hf & H)]]; rewrite H; [apply ext_refl|].
+  intros i. destruct (Nat.eq_dec i (eff_nms s c)) as [->|Hne].
+  - destruct (Nat.lt_ge_cases (eff_nms s c) (length (heap s))) as [Hl|Hl].
+    + rewrite nth_upd_same by exact Hl. eexists. reflexivity.
+    + rewrite upd_oob by exact Hl. exists []. rewrite app_nil_r. reflexivity.
+  - rewrite nth_upd_other by exact Hne. exists []. rewrite app_nil_r. reflexivity.
+Qed.
+Lemma clone_frames_ext nms_ : forall s, ext (heap s) (heap (clone_frames s nms_)).
+Proof.
+  unfold clone_frames. induction nms_ as [|nm l IH]; cbn [fold_left]; intros s; [apply ext_refl|].
+  eapply ext_trans; [apply reg_ext | apply IH].
+Qed.
+
+(* Framer.clone of a framer of house h = (a, b, c), WHATEVER namespace is current when it is called:
+   the name is checked against house h's own tasker registry b (rejected iff already there, all
+   registries unchanged), and otherwise the clone gets exactly the requested name, registered in b --
+   it is never rejected because of, nor registered into, another house's namespace *)
+Lemma clone_own_house s f n0 n orc fd h a b c :
+  nth_error (framers s) f = Some fd -> nth_error (fhouse s) f = Some (Some h) ->
+  nth_error (houses s) h = Some (a, b, c) -> nms (attrs s CFramer) = None -> (b < length (heap s))%nat ->
+  (dmemN (n0 :: n) (nth b (heap s) []) = true ->
+     snd (step s (Clone f (n0 :: n) orc)) = Some ErrClone /\ heap (fst (step s (Clone f (n0 :: n) orc))) = heap s) /\
+  (dmemN (n0 :: n) (nth b (heap s) []) = false ->
+     snd (step s (Clone f (n0 :: n) orc)) = Some (Ok (n0 :: n)) /\
+     exists extra, nth b (heap (fst (step s (Clone f (n0 :: n) orc)))) [] = (nth b (heap s) [] ++ [(n0 :: n, ninst s)]) ++ extra).
+Proof.
+  intros Hf Hh Hs Hn Hb. cbn [step]. rewrite Hf, Hh, Hs.
+  destruct (assign_eff s a b c) as (_ & _ & _ & E & _). specialize (E Hn).
+  rewrite E, assign_heap. cbn [andb]. split; intros Hm; rewrite Hm.
+  - split; [reflexivity | apply assign_heap].
+  - destruct (reg (assign s (a, b, c)) CFramer (NStr (n0 :: n)) [] orc) as [s2 r] eqn:R.
+    assert (R2 : r = Ok (n0 :: n) /\ heap s2 = upd b (dsetN (n0 :: n) (ninst s)) (heap s)).
+    { unfold reg in R. rewrite E, assign_heap, Hm in R. inversion R. split; reflexivity. }
+    destruct R2 as [-> H2]. destruct (add_framer s2 (Some h)) as [s3 d] eqn:A.
+    split; [reflexivity|].
+    assert (H3 : heap s3 = heap s2 ++ [[]]) by (unfold add_framer in A; cbn in A; inversion A; reflexivity).
+    set (s4 := set_attr s3 CFrame {| cnt := Some 0; nms := Some d |}).
+    destruct (clone_frames_ext (map fst (nth fd (heap s4) [])) s4 b) as [extra X]. cbn [fst].
+    exists extra. rewrite X. f_equal. change (heap s4) with (heap s3). rewrite H3, H2.
+    rewrite app_nth1 by (rewrite upd_length; exact Hb).
+    rewrite nth_upd_same by exact Hb. apply dsetN_fresh. exact Hm.
 Qed.
